@@ -42,13 +42,27 @@ def loads(node) -> set[str]:
     return {n.attr for n in ast.walk(node) if isinstance(n, ast.Attribute) and isinstance(n.ctx, ast.Load) and isinstance(n.value, ast.Name) and n.value.id == "self"}
 
 
-def expr_kind(e, field_kinds, cls, depth=0) -> str | None:
-    """tensor / ndarray / None(unknown) of an expression, by construction form."""
+def expr_kind(e, field_kinds, cls, depth=0, local=None) -> str | None:
+    """tensor / ndarray / None(unknown) of an expression, by construction form. `local`: name -> kind, for the parameters of a helper."""
     if depth > 6:
         return None
+    if isinstance(e, ast.Name) and local and e.id in local:
+        return local[e.id]
     if isinstance(e, ast.Call):
         f = e.func
         txt = norm_text(f)
+        helper = cls.module.functions.get(f.id) if isinstance(f, ast.Name) and getattr(cls, "module", None) is not None else None
+        if helper is not None and not e.keywords and not any(isinstance(a_, ast.Starred) for a_ in e.args):
+            # a function of the same module: the kind of what it returns, its parameters bound to the kinds of the arguments,
+            # its locals (bound once) read through
+            hp = [a_.arg for a_ in helper.node.args.args]
+            loc2 = {p_: expr_kind(a_, field_kinds, cls, depth + 1, local) for p_, a_ in zip(hp, e.args)}
+            for nm, ve in _single_defs(helper.node).items():
+                if nm not in loc2:
+                    loc2[nm] = expr_kind(ve, field_kinds, cls, depth + 1, loc2)
+            rets = [s_ for s_ in ast.walk(helper.node) if isinstance(s_, ast.Return) and s_.value is not None]
+            kinds = {expr_kind(s_.value, field_kinds, cls, depth + 1, loc2) for s_ in rets}
+            return kinds.pop() if len(kinds) == 1 else None
         if txt.startswith(("torch.", "F.")):
             return "tensor"
         if txt.startswith(("np.", "numpy.")):
@@ -57,7 +71,7 @@ def expr_kind(e, field_kinds, cls, depth=0) -> str | None:
             if f.attr == "numpy":
                 return "ndarray"
             if f.attr in ("to", "cpu", "detach", "clone", "reshape", "astype", "copy", "float", "double", "contiguous", "squeeze", "unsqueeze", "view"):
-                return expr_kind(f.value, field_kinds, cls, depth + 1)
+                return expr_kind(f.value, field_kinds, cls, depth + 1, local)
             if isinstance(f.value, ast.Name) and f.value.id == "self":
                 r = cls.lookup(f.attr)
                 if r is not None:
@@ -68,7 +82,7 @@ def expr_kind(e, field_kinds, cls, depth=0) -> str | None:
     if a:
         return field_kinds.get(a)
     if isinstance(e, ast.BinOp):
-        l, r = expr_kind(e.left, field_kinds, cls, depth + 1), expr_kind(e.right, field_kinds, cls, depth + 1)
+        l, r = expr_kind(e.left, field_kinds, cls, depth + 1, local), expr_kind(e.right, field_kinds, cls, depth + 1, local)
         return l or r
     return None
 
@@ -251,9 +265,12 @@ def cap_rule(index, ctx, cls, fwd):
     hosts = [fwd] + [cls.methods[c.func.attr] for c in ast.walk(fwd.node) if isinstance(c, ast.Call) and isinstance(c.func, ast.Attribute) and isinstance(c.func.value, ast.Name)
                      and c.func.value.id == "self" and c.func.attr in cls.methods]
     found = 0
+    from ..normalize import split_walrus
+
     for H in hosts:
-        defs = _single_defs(H.node)
-        for outer in [n for n in ast.walk(H.node) if isinstance(n, ast.If)]:
+        hnode = split_walrus(H.node)  # `if max_norm > 0 and (norm := ...) > max_norm:` read as the two nested tests it abbreviates
+        defs = _single_defs(hnode)
+        for outer in [n for n in ast.walk(hnode) if isinstance(n, ast.If)]:
             o = oriented(outer.test, lambda e: self_attr(e) == "max_norm") if isinstance(outer.test, ast.Compare) and len(outer.test.ops) == 1 else None
             if not (o and o[1] is ast.Gt and isinstance(o[2], ast.Constant) and o[2].value == 0):
                 continue
@@ -311,7 +328,9 @@ def stored_is_returned_rule(ctx, cls):
         if not stores_ or not rets:
             continue
         last = stores_[-1]
-        same = all(norm_text(r.value) in (norm_text(last.value), "self.prvs_alpha") for r in rets)
+        defs = _single_defs(f.node)
+        through = lambda e: defs[e.id] if isinstance(e, ast.Name) and e.id in defs and isinstance(defs[e.id], (ast.Name, ast.Attribute)) else e  # `r = self.prvs_alpha; return r`
+        same = all(norm_text(through(r.value)) in (norm_text(last.value), norm_text(through(last.value)), "self.prvs_alpha") for r in rets)
         ctx.require(same, "R2", f"{f.short}: the weights stored for reuse are the weights returned", f"`{norm_text(last)}` and `return {norm_text(rets[-1].value)}`",
                     f"`{norm_text(last)}` stores one value and `return {norm_text(rets[-1].value)}` hands back another: the calls that reuse the stored weights do not return what the recomputing call returned",
                     f.loc(last))
@@ -431,6 +450,95 @@ def check(index, ctx):
             return False, f"reset() sets self.{a} = {norm_text(e)} but the constructor sets {norm_text(init_expr[a])}"
         return True, f"reset(): self.{a} = {norm_text(e)} (same as constructor)"
 
+    # ---- lazy rebuild, wherever the guard sits: on every path of forward that is feasible right after reset() (the constant fields reset()
+    # restores have their initial values), a method that assigns the field unconditionally is called before the field is read
+    def reads_field(mname, a, seen=()):
+        if mname in seen or mname not in cls.methods:
+            return False
+        f = cls.methods[mname].node
+        return a in loads(f) or any(reads_field(c, a, seen + (mname,)) for c in self_calls(f))
+
+    def known_after_reset():
+        out = {}
+        for fld, e in init_expr.items():
+            if isinstance(e, ast.Constant) and isinstance(e.value, (int, float)) and not isinstance(e.value, bool) and reset_restores(fld)[0]:
+                out[fld] = e.value
+        return out
+
+    def ev3(e, known):
+        """Value of a test expression given the known field values; None = unknown."""
+        if isinstance(e, ast.Constant) and isinstance(e.value, (int, float)):
+            return e.value
+        if self_attr(e) in known:
+            return known[self_attr(e)]
+        if isinstance(e, ast.UnaryOp) and isinstance(e.op, ast.Not):
+            v = ev3(e.operand, known)
+            return None if v is None else (not v)
+        if isinstance(e, ast.BinOp) and isinstance(e.op, (ast.Mod, ast.Mult)) and ev3(e.left, known) == 0 and isinstance(e.op, (ast.Mod, ast.Mult)):
+            return 0  # 0 % n and 0 * n
+        if isinstance(e, ast.BoolOp):
+            vs = [ev3(v, known) for v in e.values]
+            if isinstance(e.op, ast.And):
+                return False if any(v is not None and not v for v in vs) else (None if any(v is None for v in vs) else True)
+            return True if any(v is not None and v for v in vs) else (None if any(v is None for v in vs) else False)
+        if isinstance(e, ast.Compare) and len(e.ops) == 1:
+            l, r_ = ev3(e.left, known), ev3(e.comparators[0], known)
+            if l is None or r_ is None:
+                return None
+            import operator as _op
+
+            f_ = {ast.Eq: _op.eq, ast.NotEq: _op.ne, ast.Lt: _op.lt, ast.LtE: _op.le, ast.Gt: _op.gt, ast.GtE: _op.ge, ast.Is: _op.eq, ast.IsNot: _op.ne}.get(type(e.ops[0]))
+            return f_(l, r_) if f_ else None
+        return None
+
+    def lazily_rebuilt(a):
+        from ..cfg import own_exprs
+
+        builders = [m for m, f in cls.methods.items() if m not in ("__init__", "reset", "forward") and
+                    any(any(self_attr(t) == a for t in (s_.targets if isinstance(s_, ast.Assign) else ([s_.target] if isinstance(s_, ast.AnnAssign) and s_.value is not None else []))) for s_ in f.node.body)]
+        if not builders:
+            return None
+        base = known_after_reset()
+        if not base:
+            return None
+        n_feasible = n_built = 0
+        for path in fcfg.acyclic_paths():
+            known = dict(base)
+            built = False
+            ok_path = True
+            for nd, nxt in zip(path, path[1:] + [None]):
+                exprs = own_exprs(nd)
+                if nd.kind == "test" and hasattr(nd.ast, "test") and nxt is not None:
+                    lbl = next((l for m_, l in fcfg.succ[nd] if m_ is nxt), None)
+                    v = ev3(nd.ast.test, known)
+                    if v is not None and lbl in ("True", "False") and bool(v) != (lbl == "True"):
+                        ok_path = None  # infeasible right after reset()
+                        break
+                for e in exprs:
+                    calls = [self_attr(c.func) for c in ast.walk(e) if isinstance(c, ast.Call) and self_attr(c.func) in cls.methods]
+                    if not built and (a in loads(e) or any(reads_field(c, a) for c in calls if c not in builders)):
+                        ok_path = False
+                    if any(c in builders for c in calls):
+                        built = True
+                    for c in calls:
+                        for fld in stores(cls.methods[c].node):
+                            known.pop(fld, None)
+                if isinstance(nd.ast, (ast.Assign, ast.AugAssign, ast.AnnAssign)):
+                    for fld in stores(nd.ast):
+                        known.pop(fld, None)
+                if ok_path is False:
+                    break
+            if ok_path is None:
+                continue
+            n_feasible += 1
+            if ok_path is False:
+                return None
+            n_built += built
+        if n_feasible and n_built == n_feasible:
+            return (f"rebuilt by {builders} before self.{a} is read on each of the {n_feasible} paths of forward that are feasible right after reset() "
+                    f"(fields restored by reset(): {sorted(base)})")
+        return None
+
     for a in sorted(mutable):
         writers = sorted({m for m, _ in state[a] if m != "reset"})
         if a in param_fields:
@@ -453,6 +561,10 @@ def check(index, ctx):
                     rebuilt = f"rebuilt unconditionally by {gm}(), which forward calls first under `{norm_text(gnode.test)}`; self.{fld} is restored by reset()"
                 else:
                     why = f"self.{a} is rebuilt by {gm}() under `{norm_text(gnode.test)}`, but {fwhy}"
+        if not rebuilt:
+            lz = lazily_rebuilt(a)
+            if lz:
+                rebuilt = lz
         if rebuilt:
             ctx.ok("R1", f"_NashMTLWeighting.{a}", rebuilt, fwd.loc())
         else:
@@ -603,6 +715,9 @@ def check(index, ctx):
                             else:
                                 kinds[norm_text(d.ast)] = "same"
                         bad = {k: v for k, v in kinds.items() if v not in ("tensor", "same")}
+                        if bad and all(v is None for v in bad.values()):
+                            ctx.undecided("R3", f"forward: `{norm_text(b)}` operand kinds", f"the kind (torch tensor / numpy array) of `{x.id}` could not be read off {sorted(bad)}", fwd.loc(b))
+                            continue
                         ctx.require(not bad and bool(kinds), "R3", f"forward: `{norm_text(b)}` operand kinds",
                                     f"`{x.id}` is a torch tensor on all {len(kinds)} reaching definitions",
                                     f"`{x.id}` reaches `{norm_text(b)}` (other operand: the input tensor) as {bad}: numpy array @ torch tensor raises TypeError", fwd.loc(b),
@@ -628,6 +743,9 @@ def check(index, ctx):
                                 rd = reaching_defs(fcfg, actual)[n]
                                 kinds = {norm_text(d.ast): (expr_kind(d.ast.value, field_kinds, cls) if isinstance(d.ast, ast.Assign) else "same") for d in rd}
                                 bad = {k: v for k, v in kinds.items() if v not in ("tensor", "same")}
+                                if bad and all(v is None for v in bad.values()):
+                                    ctx.undecided("R3", f"forward: `{norm_text(b)}` in {H.name} operand kinds", f"the kind (torch tensor / numpy array) of `{actual}` could not be read off {sorted(bad)}", fwd.loc(c))
+                                    continue
                                 ctx.require(not bad and bool(kinds), "R3", f"forward: `{norm_text(b)}` in {H.name} (called with `{actual}`) operand kinds",
                                             f"`{actual}` is a torch tensor on all {len(kinds)} definitions reaching the call",
                                             f"`{actual}` reaches `{norm_text(b)}` in {H.name} (other operand: the input tensor) as {bad}: numpy array @ torch tensor raises TypeError", fwd.loc(c),
